@@ -24,11 +24,19 @@ def correspond(ctx):
         res.nontrivial.add(sk.case_sig(c["name"], c["cfg"], c["db"], c["profile"]))
         res.count("direct:" + c["name"])
         so.c03(res, c)
+    # across real process boundaries (three interpreters with different hash seeds): one case per scheme (quick) / four (thorough)
+    per = {}
+    for c in cases:
+        if per.get(c["name"], 0) < ctx.pick(1, 4) and c["profile"] in ("mixed", "boundary", "pow2"):
+            per[c["name"]] = per.get(c["name"], 0) + 1
+            res.count("cross-process cases")
+            so.c03_crossproc(res, c)
     res.extra["schemes_modelled"] = list(sc.MODELLED)
     res.rule = (f"per scheme {n_cfg} supported configurations (key / PRF-output / label widths that differ from each other and from the defaults) x "
                 f"{len(se.PROFILES)} database profiles; every stored keyword and adversarially close absent keywords searched through the split "
                 "(JSON-round-tripped configuration, fresh scheme instance, deserialized key / index / token / result), then a second session with "
-                "a fresh key in the same process; non-trivial = distinct (scheme, profile, configuration, list-length vector)")
+                "a fresh key in the same process; one case per scheme also across REAL process boundaries (setup, token generation and server search in "
+                "three interpreters with different hash seeds, files of bytes in between); non-trivial = distinct (scheme, profile, configuration, list-length vector)")
     for c in cases[:1] + cases[-1:]:
         res.sample({"scheme": c["name"], "profile": c["profile"], "config": {k: v for k, v in c["cfg"].items() if k.startswith("param")}})
     return res
@@ -39,6 +47,11 @@ def search(ctx, broken, res0):
     for c in sk.targeted_cases(ctx, res0) + sk.gen_cases(ctx, se.NAMES, ctx.pick(12, 30), scale=2):
         res.evaluations += 1
         so.c03(res, c)
+    seen = set()
+    for c in sk.targeted_cases(ctx, res0, n_quick=2, n_thorough=4) + sk.gen_cases(ctx, se.NAMES, 1):
+        if (c["name"], c["profile"]) not in seen and len(seen) < 40 and c["profile"] in ("mixed", "boundary", "one"):
+            seen.add((c["name"], c["profile"]))
+            so.c03_crossproc(res, c)
     return res
 
 
@@ -46,4 +59,5 @@ def replay(ctx, rp):
     c = sk.case_from_replay(rp)
     r = Result()
     so.c03(r, c)
+    so.c03_crossproc(r, c)
     return {"holds": not r.violations, "observed": [v["what"] for v in r.violations][:3]}
